@@ -11,6 +11,10 @@ CHECKS = {
  "C13": "Inductive VCs: supply rises only in a Mint by the stored minter and stays within the cap; the minter record changes only in UpdateMinter by the minter and keeps the cap; mint=None is absorbing under every execute variant and migrate; instantiate establishes the cap invariant.",
  "C19": "Inductive VC that the owner- and spender-indexed allowance maps mirror each other under every execute variant, that migrate from a pre-0.14 layout builds the mirror (semver comparison symbolic), and a relational VC that the three allowance queries agree on amount and expiry.",
  "C04": "Solver VCs over the real MIR of the cw3 threshold kernel (votes_needed, is_passed, is_rejected, current_status) for every u64 tally and every valid threshold: exact round-up for <= 9 decimals, within one vote and never stricter for 18, never Passed without Yes weight, early decisions sound against every completion of the outstanding votes, never both passed and rejected; non-linear queries decided by z3 5.1.",
+ "C07": "VCs over the real MIR of cw1-whitelist and cw1-subkeys Execute for every list (<= 2) of CosmosMsg of every compiled variant: success implies the relayed sub-messages are exactly the submitted ones (order, no reply, no gas limit) and the caller is an admin or every message is individually covered by the caller's pre-state grants (cumulative per denom for bank sends, permission flags for staking/distribution).",
+ "C08": "VCs over cw1-subkeys Execute/IncreaseAllowance/DecreaseAllowance with cw-utils NativeBalance interpreted from its own MIR: per-denomination exact deduction across all coins and messages of a call, expiry, untouched bystanders, admin-only grants with restart-from-zero on expired entries and saturating decrease, the distinct-denom representation invariant, and a ghost-counter VC for the cumulative spend bound.",
+ "C16": "Relational VC: on one arbitrary symbolic state, valid sender and CosmosMsg, query_can_execute and execute_execute([msg]) are both run from MIR and the query's answer must equal the execute's success, for both proxies and every message variant.",
+ "C17": "Step VCs for every execute variant of both proxies plus instantiate: the admin list/flag change only in UpdateAdmins/Freeze by a listed admin while mutable, mutable=false is absorbing, allowances/permissions change only by admins or by the subkey's own spend.",
 }
 PENDING = {}
 ALL = [f"C{i:02d}" for i in range(1, 21)]
